@@ -405,6 +405,17 @@ export function genWatch(rng, p) {
       files.push(shadow);
     }
   }
+  // a type that comes back from the semantic engine with a generated helper definition (`Exclude` over a recursive tuple /
+  // object): the helper's name must not depend on how many rebuilds the session has done (outside the Lean module model: `gen_v`)
+  if (rng.chance(1, 6)) {
+    const entry = files.find((f) => f[1] === "entry.ts");
+    if (entry) {
+      for (const v of entry.slice(2)) if (typeof v[1] === "string" && v[1] !== "@@ABSENT@@") v[1] = 'import { Tail } from "./gen_v";\n' + v[1].replace(/ \}>\(\);\n$/, ", EG: Tail }>();\n");
+      const mk = (t) => `type Chain = [${t}, ...Chain[]];\nexport type Tail = Exclude<Chain | null, null>;\n`;
+      files.push([A("file"), "gen_v.ts", [A("var"), mk("string"), [A("src")]], [A("var"), mk("number"), [A("src")]],
+        [A("var"), "type Tree = { label: string; children: Tree[] };\nexport type Tail = Exclude<Tree | undefined, undefined>;\n", [A("src")]], [A("var"), "export type Tail = {;\n", A("broken")]]);
+    }
+  }
   const ops = [];
   const n = 3 + rng.below(10);
   const pickVar = (f) => (f === late || f === shadow ? 1 + rng.below(f.length - 3) : rng.below(f.length - 2));
